@@ -38,6 +38,26 @@ type readWriter struct {
 func (r *readWriter) Read(p []byte) (n int, err error)  { return r.r.Read(p) }
 func (r *readWriter) Write(p []byte) (n int, err error) { return r.w.Write(p) }
 
+// daemonInvocationOnly returns an error unless args is the command line with
+// which an rsync client starts a daemon over a remote shell (rsync --server
+// --daemon .), as opposed to command mode (--server without --daemon) or
+// client mode, which operate on arbitrary paths and can start other programs.
+func daemonInvocationOnly(args []string) error {
+	if len(args) == 0 {
+		return fmt.Errorf("empty command line")
+	}
+	osenv := &rsyncos.Env{Stderr: io.Discard}
+	pc := rsyncopts.NewContext(rsyncopts.NewOptionsWithGokrazyDefaults(osenv))
+	pc.ErrorOnExit = true
+	if err := pc.ParseArguments(osenv, args[1:]); err != nil {
+		return err
+	}
+	if !pc.Options.Daemon() || !pc.Options.Server() {
+		return fmt.Errorf("anonymous SSH sessions can only start the rsync daemon protocol (rsync --server --daemon .)")
+	}
+	return nil
+}
+
 func Main(ctx context.Context, osenv *rsyncos.Env, args []string, cfg *rsyncdconfig.Config) (*rsyncstats.TransferStats, error) {
 	osenv.Logf("Main(osenv=%v, args=%q)", osenv, args)
 	pc := rsyncopts.NewContext(rsyncopts.NewOptionsWithGokrazyDefaults(osenv))
@@ -301,6 +321,12 @@ func Main(ctx context.Context, osenv *rsyncos.Env, args []string, cfg *rsyncdcon
 	if cfg.Listeners[0].AnonSSH != "" {
 		osenv.Logf("rsync daemon listening (anon SSH) on %s", ln.Addr())
 		return nil, anonssh.Serve(ctx, osenv, ln, sshListener, cfg, func(args []string, stdin io.Reader, stdout io.Writer, stderr io.Writer) error {
+			// Anyone can connect to this listener, so the only thing a
+			// session may do is speak the rsync daemon protocol, which is
+			// confined to the configured modules.
+			if err := daemonInvocationOnly(args); err != nil {
+				return err
+			}
 			osenv := &rsyncos.Env{
 				Stdin:  stdin,
 				Stdout: stdout,
